@@ -7,8 +7,8 @@ PROPS = {
         "engine": "interp",
         "timeout_s": {"quick": 120, "thorough": 600},
         "batches": {
-            "quick": [{"config": "gcc-O1-asan-ubsan", "runs": 6000}],
-            "thorough": [{"config": "clang-O2", "runs": 50000}, {"config": "gcc-O1-asan-ubsan", "runs": 12000}],
+            "quick": [{"config": "gcc-O1-asan-ubsan", "runs": 6000}, {"config": "clang-O2-ndebug", "runs": 1500}],
+            "thorough": [{"config": "clang-O2-ndebug", "runs": 50000}, {"config": "gcc-O1-asan-ubsan", "runs": 12000}],
         },
         "rule": "One run = one seeded plan: a table (N in {3..2000}, spacing ratios up to 1e9, optional unit factors) and an "
                 "interleaving, chosen by the seeded scheduler, of 1-4 client programs (walker, jumper, edge-sitter, knot-hitter) "
@@ -30,8 +30,8 @@ PROPS = {
         "engine": "interp",
         "timeout_s": {"quick": 120, "thorough": 600},
         "batches": {
-            "quick": [{"config": "gcc-O1-asan-ubsan", "runs": 6000}],
-            "thorough": [{"config": "clang-O2", "runs": 40000}, {"config": "gcc-O1-asan-ubsan", "runs": 10000}],
+            "quick": [{"config": "gcc-O1-asan-ubsan", "runs": 6000}, {"config": "clang-O2-ndebug", "runs": 1500}],
+            "thorough": [{"config": "clang-O2-ndebug", "runs": 40000}, {"config": "gcc-O1-asan-ubsan", "runs": 10000}],
         },
         "rule": "Same plans as C09 with the op mix shifted to Integrate / Local_* / Global_* / Set_Prefactor / Multiply. After each such "
                 "op the result is compared with a reference computed from the curve itself (fresh object with the same prefactor "
@@ -51,8 +51,8 @@ PROPS = {
         "engine": "mc",
         "timeout_s": {"quick": 60, "thorough": 900},
         "batches": {
-            "quick": [{"config": "clang-O2", "runs": 800}, {"config": "gcc-O1-asan-ubsan", "runs": 160}],
-            "thorough": [{"config": "clang-O2", "runs": 6000}, {"config": "gcc-O1-asan-ubsan", "runs": 600}],
+            "quick": [{"config": "clang-O2-ndebug", "runs": 800}, {"config": "gcc-O1-asan-ubsan", "runs": 160}],
+            "thorough": [{"config": "clang-O2-ndebug", "runs": 6000}, {"config": "gcc-O1-asan-ubsan", "runs": 600}],
         },
         "rule": "One run = one call history in a pristine process image: 2-13 integrator requests owned by 1-3 clients and interleaved by the "
                 "seeded scheduler (method in {Monte-Carlo, Vegas, Miser} through Integrate_MC or the Integrate_2D/3D front ends, 1-6 "
@@ -74,8 +74,8 @@ PROPS = {
         "engine": "samplers",
         "timeout_s": {"quick": 180, "thorough": 900},
         "batches": {
-            "quick": [{"config": "clang-O2", "runs": 600}, {"config": "gcc-O1-asan-ubsan", "runs": 200, "kv": {"law_frac": "0.03"}}],
-            "thorough": [{"config": "clang-O2", "runs": 4000}, {"config": "gcc-O1-asan-ubsan", "runs": 500, "kv": {"law_frac": "0.03"}}],
+            "quick": [{"config": "clang-O2-ndebug", "runs": 600}, {"config": "gcc-O1-asan-ubsan", "runs": 200, "kv": {"law_frac": "0.03"}}],
+            "thorough": [{"config": "clang-O2-ndebug", "runs": 4000}, {"config": "gcc-O1-asan-ubsan", "runs": 500, "kv": {"law_frac": "0.03"}}],
         },
         "rule": "Two kinds of run on one caller-owned std::mt19937. History runs: 1-4 clients, each bound to a sampler family, interleaved "
                 "by the seeded scheduler with re-seeding (0, 1, 5489, 2^32-1, random) and discard(1..1e6) faults; after every sampler op "
@@ -103,13 +103,15 @@ PROPS = {
             "quick": [{"config": "gcc-O1-asan-ubsan", "runs": 2000, "kv": {"faults": "A"}},
                       {"config": "gcc-O1-asan-ubsan", "runs": 3000, "kv": {"faults": "B"}},
                       {"config": "clang-O0", "runs": 2000, "kv": {"faults": "B"}},
-                      {"config": "clang-O0", "runs": 2000, "kv": {"faults": "C"}}],
+                      {"config": "clang-O0", "runs": 2000, "kv": {"faults": "C"}},
+                      {"config": "gcc-O2-ndebug", "runs": 1500, "kv": {"faults": "B"}}],
             "thorough": [{"config": "gcc-O0", "runs": 20000, "kv": {"faults": "A"}},
                          {"config": "gcc-O2", "runs": 30000, "kv": {"faults": "B"}},
                          {"config": "clang-O0", "runs": 30000, "kv": {"faults": "B"}},
-                         {"config": "clang-O2", "runs": 25000, "kv": {"faults": "C"}},
+                         {"config": "clang-O2-ndebug", "runs": 25000, "kv": {"faults": "C"}},
                          {"config": "gcc-O1-asan-ubsan", "runs": 25000, "kv": {"faults": "C"}},
-                         {"config": "clang-O1-asan-ubsan", "runs": 20000, "kv": {"faults": "B"}}],
+                         {"config": "clang-O1-asan-ubsan", "runs": 20000, "kv": {"faults": "B"}},
+                         {"config": "gcc-O2-ndebug", "runs": 20000, "kv": {"faults": "B"}}],
         },
         "rule": "One run = one seeded plan of 4-45 operations on a store of up to 6 paths under /simfs/ (Export_List, Export_Table, both "
                 "Export_Function overloads with linear and logarithmic grids, Import_List, Import_Table, File_Exists, all In_Units "
@@ -133,8 +135,8 @@ PROPS = {
         "engine": "memo",
         "timeout_s": {"quick": 120, "thorough": 300},
         "batches": {
-            "quick": [{"config": "gcc-O1-asan-ubsan", "runs": 2000}],
-            "thorough": [{"config": "gcc-O1-asan-ubsan", "runs": 12000}, {"config": "clang-O2", "runs": 12000}],
+            "quick": [{"config": "gcc-O1-asan-ubsan", "runs": 2000}, {"config": "clang-O2-ndebug", "runs": 600}],
+            "thorough": [{"config": "gcc-O1-asan-ubsan", "runs": 12000}, {"config": "clang-O2-ndebug", "runs": 12000}],
         },
         "rule": "PARTIAL: only the history clause of C06 ('all n<=170 for Factorial in every call order; the memo table grows on demand') is "
                 "decided. One run = a pristine process image (memo table = {1}) in which 1-3 clients (ascending, descending, random, "
